@@ -390,7 +390,26 @@ def check_iter_form(run, F, name, rules):
 
 
 def _shape(el, name):
-    """(removed, new, end) components of a driver element, by driver."""
+    """(removed, new, end) components of a driver element, by driver.  When the map closure was
+    applied symbolically the element is the callback call itself and the components are read off
+    the callback's parameter order, whatever the pipeline's zip order or pattern names."""
+    if el[0] == 'call':
+        args = el[2:]
+        if 'custom' in name:
+            # f(slice) / f(slice_self, slice_other): every slice must be [start, end)
+            if not args or any(a[0] != 'slice' for a in args):
+                return None
+            first = args[0]
+            if any(a[2] != first[2] or a[3] != first[3] for a in args[1:]):
+                return None
+            want = ['self', 'other'][:len(args)]
+            if [a[1] for a in args] != want[:len(args)] or \
+                    len(args) != (2 if name.startswith('rolling2') else 1):
+                return None
+            return (first[2], None, first[3])
+        if 'idx' in name:
+            return (args[0], args[2], args[1]) if len(args) == 3 else None
+        return (args[0], args[1], None) if len(args) == 2 else None
     if el[0] != 'map' or not isinstance(el[2], tuple) or el[2][0] != 'pair':
         return None
     a, b = el[2][1], el[2][2]
